@@ -62,6 +62,22 @@ def run(data):
                     except Exception: pass  # noqa
     for ua, m, ub in data.get("decls", []):
         mk_unit(ua).equals(Quantity(mk_num(m), mk_unit(ub)))
+    if data.get("bookkeeping"):
+        # ordinary bookkeeping on public results before anything is converted: a running balance started from unit.quantify() (and from an
+        # unprefixed quantity) of every unit the cases mention, brought down to nothing with -= and built up again with +=
+        seen_ = set()
+        for c in data.get("cases", []):
+            for spec in [c.get("a", {}).get("u")] + [c["b"] if isinstance(c.get("b"), list) else (c.get("b") or {}).get("u")]:
+                if not spec or json.dumps(spec) in seen_: continue
+                seen_.add(json.dumps(spec))
+                try:
+                    u_ = mk_unit(spec)
+                    for start in (u_.quantify(), Quantity(1, u_).unprefixed(), 1 * u_):
+                        bal = start
+                        half = Quantity(bal.magnitude / 2, bal.unit)
+                        bal -= half; bal -= half; bal += half; bal *= 3
+                except Exception:  # noqa
+                    pass
     res = []
     for c in data.get("cases", []):
         if c.get("op") == "chain":
